@@ -132,7 +132,7 @@ def mismatching_affinity(rng, K, L):
     for a, row in enumerate(diag):
         lid = a
         if kind == 5 and a == len(diag) - 1:
-            lid = L + 3                                           # layer id out of range
+            lid = L if rng.chance(0.5) else L + 3                 # layer id out of range (== L: the 1-based slip)
         if kind == 6 and a == len(diag) - 1 and L > 1:
             lid = 0                                               # duplicated layer id
         lines.append(' '.join([str(lid)] + [fmt_val(x) for x in row]))
